@@ -333,3 +333,204 @@ Proof.
       assert (E2 : term_at (lg u) k = T) by (rewrite <- HoT; apply term_at_firstn_eq; exact Hu2).
       pose proof (HS u (length C) k) as Hs. rewrite E1, E2 in Hs. specialize (Hs HCne). lia.
 Qed.
+
+(* ------------------------------------------------------------------ *)
+(** * Term bounds, sortedness, acknowledgement bounds *)
+
+Lemma crash_inv inc out k e e' : prule inc out (LCrash k) e = Some e' ->
+  p_up (nodes e k) = true /\
+  e' = set_node e k (mkPN false (p_dterm (nodes e k)) (p_dvote (nodes e k)) PF []
+                          (p_dterm (nodes e k)) (p_dvote (nodes e k)) []).
+Proof.
+  cbn [prule]. intros H. destruct (p_up (nodes e k)); [|discriminate]. inversion H; subst. auto.
+Qed.
+
+Lemma campaign_inv inc out k e e' : prule inc out (LCampaign k) e = Some e' ->
+  p_up (nodes e k) = true /\ k <> 0 /\
+  e' = set_node e k (mkPN true (p_term (nodes e k) + 1) k PC [k]
+                          (p_dterm (nodes e k)) (p_dvote (nodes e k)) (p_imgs (nodes e k))).
+Proof.
+  cbn [prule]. intros H. destruct (p_up (nodes e k) && negb (k =? 0)) eqn:Hg; [|discriminate].
+  apply andb_prop in Hg. destruct Hg as [H1 H2]. apply negb_true_iff, N.eqb_neq in H2.
+  inversion H; subst. auto.
+Qed.
+
+Section EInv.
+  Variables (inc out : list N).
+  Hypothesis inc_nonempty : inc <> [].
+  Hypothesis Hmulti : no_single_quorum inc out.
+  Notation lrule := (lrule inc out).
+  Notation lreachable := (lreachable inc out).
+
+  Record EInv (s : lst) : Prop := {
+    e_log : forall n, terms_le (l_log (ln s n)) (p_term (nodes (el s) n));
+    e_dlog : forall n, terms_le (l_dlog (ln s n)) (p_dterm (nodes (el s) n));
+    e_llog : forall t, terms_le (llog s t) t;
+    e_clog : forall c t, terms_lt (clog s c t) t;
+    e_sorted : forall t, sorted (llog s t);
+    e_acked : forall q t, (acked s q t <= length (llog s t))%nat;
+    e_acks : forall q t i, In (t, i) (l_acks (ln s q)) -> (i <= length (llog s t))%nat
+  }.
+
+  Lemma EInv_init : EInv linit.
+  Proof.
+    constructor; cbn; intros; try (intros e []); try apply sorted_nil; try lia; contradiction.
+  Qed.
+
+  (* node-local update that keeps the ghosts *)
+  Lemma EInv_set_ln s n x' : EInv s ->
+    terms_le (l_log x') (p_term (nodes (el s) n)) ->
+    terms_le (l_dlog x') (p_dterm (nodes (el s) n)) ->
+    (forall t i, In (t, i) (l_acks x') -> (i <= length (llog s t))%nat) ->
+    EInv (set_ln s n x').
+  Proof.
+    intros [E1 E2 E3 E4 E5 E6 E7] H1 H2 H3. constructor; cbn [set_ln ln el llog clog acked]; intros; auto.
+    - destruct (N.eqb_spec n0 n) as [->|Hne]; [exact H1|apply E1].
+    - destruct (N.eqb_spec n0 n) as [->|Hne]; [exact H2|apply E2].
+    - destruct (N.eqb_spec q n) as [->|Hne]; [apply H3; exact H|eapply E7; exact H].
+  Qed.
+
+  Lemma EInv_set_el s e' : EInv s ->
+    (forall n, p_term (nodes (el s) n) <= p_term (nodes e' n)) ->
+    (forall n, p_dterm (nodes (el s) n) <= p_dterm (nodes e' n)) ->
+    EInv (set_el s e').
+  Proof.
+    intros [E1 E2 E3 E4 E5 E6 E7] H1 H2. constructor; cbn [set_el ln el llog clog acked]; intros; auto.
+    - eapply terms_le_mono; [apply H1|apply E1].
+    - eapply terms_le_mono; [apply H2|apply E2].
+    - eapply E7; exact H.
+  Qed.
+
+  Lemma EInv_set_clog s c t L : EInv s -> terms_lt L t -> EInv (set_clog s c t L).
+  Proof.
+    intros [E1 E2 E3 E4 E5 E6 E7] H. constructor; auto.
+    intros c0 t0. cbn. destruct ((c0 =? c) && (t0 =? t)) eqn:E; [|apply E4].
+    apply andb_prop in E. destruct E as [_ E]. apply N.eqb_eq in E. subst. exact H.
+  Qed.
+
+  Lemma EInv_set_acked s q t i : EInv s -> (i <= length (llog s t))%nat -> EInv (set_acked s q t i).
+  Proof.
+    intros [E1 E2 E3 E4 E5 E6 E7] H. constructor; auto.
+    intros q0 t0. cbn. destruct ((q0 =? q) && (t0 =? t)) eqn:E; [|apply E6].
+    apply andb_prop in E. destruct E as [_ E]. apply N.eqb_eq in E. subst. exact H.
+  Qed.
+
+  Lemma EInv_add_cpt s t k : EInv s -> EInv (add_cpt s t k).
+  Proof. intros [E1 E2 E3 E4 E5 E6 E7]. constructor; auto. Qed.
+
+  (* a leader appends an entry of its term *)
+  Lemma EInv_append s c x :
+    let t := p_term (nodes (el s) c) in
+    let L := l_log (ln s c) in
+    EInv s -> good (llog s) L -> (exists suf, L ++ [(t, x)] = llog s t ++ suf) ->
+    EInv (set_llog (set_ln s c (with_log (ln s c) (L ++ [(t, x)]))) t (L ++ [(t, x)])).
+  Proof.
+    intros t L [E1 E2 E3 E4 E5 E6 E7] HgL [suf Hsuf].
+    assert (HL : terms_le L t) by apply E1.
+    assert (Hlen : (length (llog s t) <= length (L ++ [(t, x)]))%nat).
+    { rewrite Hsuf, app_length. lia. }
+    constructor; cbn [set_llog set_ln ln el llog clog acked]; intros.
+    - destruct (N.eqb_spec n c) as [->|Hne]; [|apply E1]. cbn. apply terms_le_snoc; [exact HL|cbn; lia].
+    - destruct (N.eqb_spec n c) as [->|Hne]; [|apply E2]. cbn. apply E2.
+    - destruct (N.eqb_spec t0 t) as [->|Hne]; [|apply E3]. apply terms_le_snoc; [exact HL|cbn; lia].
+    - apply E4.
+    - destruct (N.eqb_spec t0 t) as [->|Hne]; [|apply E5]. apply sorted_snoc; [|exact HL].
+      apply good_sorted with (lg := llog s); [exact E5|exact HgL].
+    - destruct (N.eqb_spec t0 t) as [->|Hne]; [|apply E6]. pose proof (E6 q t). lia.
+    - assert (Hin : In (t0, i) (l_acks (ln s q))).
+      { destruct (N.eqb_spec q c) as [->|Hne]; [cbn in H|]; exact H. }
+      destruct (N.eqb_spec t0 t) as [->|Hne]; [|eapply E7; exact Hin]. pose proof (E7 q t i Hin). lia.
+  Qed.
+  Lemma EInv_set_el_ln s e' n x' : EInv s ->
+    (forall m, m <> n -> p_term (nodes (el s) m) <= p_term (nodes e' m)) ->
+    (forall m, p_dterm (nodes (el s) m) <= p_dterm (nodes e' m)) ->
+    terms_le (l_log x') (p_term (nodes e' n)) ->
+    terms_le (l_dlog x') (p_dterm (nodes e' n)) ->
+    (forall t i, In (t, i) (l_acks x') -> (i <= length (llog s t))%nat) ->
+    EInv (set_ln (set_el s e') n x').
+  Proof.
+    intros [E1 E2 E3 E4 E5 E6 E7] Ht Hd H1 H2 H3.
+    constructor; cbn [set_ln set_el ln el llog clog acked]; intros; auto.
+    - destruct (N.eqb_spec n0 n) as [->|Hne]; [exact H1|].
+      eapply terms_le_mono; [apply Ht; exact Hne|apply E1].
+    - destruct (N.eqb_spec n0 n) as [->|Hne]; [exact H2|].
+      eapply terms_le_mono; [apply Hd|apply E2].
+    - destruct (N.eqb_spec q n) as [->|Hne]; [apply H3; exact H|eapply E7; exact H].
+  Qed.
+
+  Theorem EInv_step s l s' : lreachable s -> LInv s -> EInv s -> lrule l s = Some s' -> EInv s'.
+  Proof.
+    intros Hr HL HE H. pose proof (lreachable_el _ _ _ Hr) as Hre.
+    pose proof (reachable_Inv inc out _ Hre) as HIe.
+    destruct l as [l0|c x|n m|q i|q t i|c k|n k|n|n].
+    - destruct (lel_inv _ _ _ _ _ H) as (e' & He & Hel & Hs).
+      assert (Hd : forall m, p_dterm (nodes (el s) m) <= p_dterm (nodes e' m))
+        by (intros m; eapply dterm_mono; eassumption).
+      assert (Ht : (forall k, l0 <> LCrash k) -> forall m, p_term (nodes (el s) m) <= p_term (nodes e' m))
+        by (intros Hnc m; eapply term_monotone; eassumption).
+      destruct l0 as [n|n|n|n t|n c t|n t|n t|c n|c|n t|n|n|n];
+        try (subst s'; apply EInv_set_el; [exact HE|apply Ht; discriminate|exact Hd]).
+      + (* campaign *)
+        subst s'. apply EInv_set_clog; [apply EInv_set_el; [exact HE|apply Ht; discriminate|exact Hd]|].
+        destruct (campaign_inv _ _ _ _ _ He) as (_ & _ & ->). cbn. rewrite N.eqb_refl. cbn.
+        intros e Hin. pose proof (e_log s HE n e Hin). lia.
+      + destruct Hs as [-> _]. apply EInv_set_el; [exact HE|apply Ht; discriminate|exact Hd].
+      + (* become leader *)
+        destruct Hs as [Hcl ->].
+        assert (HE1 : EInv (set_el s e')) by (apply EInv_set_el; [exact HE|apply Ht; discriminate|exact Hd]).
+        apply (EInv_append (set_el s e') c 0 HE1).
+        * apply (li_Dlog s HL).
+        * cbn [set_el el ln llog].
+          destruct (become_leader_inv _ _ _ _ _ He) as (_ & _ & _ & Ee).
+          assert (Et : p_term (nodes e' c) = p_term (nodes (el s) c))
+            by (rewrite Ee; cbn; rewrite N.eqb_refl; reflexivity).
+          rewrite Et, (new_leader_llog_nil inc out inc_nonempty Hmulti s c e' Hr HL He). eexists. reflexivity.
+      + (* crash *)
+        subst s'. destruct (crash_inv _ _ _ _ _ He) as (_ & Ee).
+        apply EInv_set_el_ln; [exact HE| |exact Hd| | |cbn; contradiction].
+        * intros m Hne. rewrite Ee. cbn. apply N.eqb_neq in Hne. rewrite Hne. lia.
+        * rewrite Ee. cbn. rewrite N.eqb_refl. cbn. apply (e_dlog s HE).
+        * rewrite Ee. cbn. rewrite N.eqb_refl. cbn. apply (e_dlog s HE).
+    - (* propose *)
+      apply lpropose_inv in H. destruct H as (Hl & ->).
+      apply (EInv_append s c x HE); [apply (li_Dlog s HL)|].
+      rewrite (li_B s HL c Hl). eexists. reflexivity.
+    - (* adopt *)
+      apply ladopt_inv in H. cbv zeta in H. destruct H as (_ & _ & _ & _ & _ & _ & ->).
+      apply EInv_set_ln; cbn [with_log l_log l_dlog l_acks]; [exact HE| |apply (e_dlog s HE)|apply (e_acks s HE)].
+      apply terms_le_firstn. apply (e_llog s HE).
+    - (* make ack *)
+      apply lmkack_inv in H. cbv zeta in H. destruct H as (_ & _ & Hi & _ & ->).
+      apply EInv_set_ln; cbn [l_log l_dlog l_acks]; [exact HE|apply (e_log s HE)|apply (e_dlog s HE)|].
+      intros t0 i0 [Hin|Hin]; [inversion Hin; subst; exact Hi|eapply (e_acks s HE); exact Hin].
+    - (* release ack *)
+      apply lrelack_inv in H. destruct H as (_ & _ & Hi & ->).
+      destruct (acked s q t <? i)%nat; [apply EInv_set_acked; assumption|exact HE].
+    - (* leader commit *)
+      apply lcommitl_inv in H. cbv zeta in H. destruct H as (Hl & Hk & _ & _ & _ & ->).
+      apply EInv_add_cpt.
+      assert (HE1 : EInv (set_ln s c (mkLN (l_log (ln s c)) (l_dlog (ln s c)) (l_imgs (ln s c)) k (l_acks (ln s c))))).
+      { apply EInv_set_ln; cbn [l_log l_dlog l_acks];
+          [exact HE|apply (e_log s HE)|apply (e_dlog s HE)|apply (e_acks s HE)]. }
+      cbv zeta. destruct (is_prefix _ _ && _)%bool; [|exact HE1].
+      apply EInv_set_acked; [exact HE1|]. cbn [set_ln llog]. rewrite <- (li_B s HL c Hl). exact Hk.
+    - (* follower commit *)
+      apply lcommitf_inv in H. destruct H as (_ & _ & _ & _ & ->).
+      apply EInv_set_ln; cbn [l_log l_dlog l_acks];
+        [exact HE|apply (e_log s HE)|apply (e_dlog s HE)|apply (e_acks s HE)].
+    - (* log image *)
+      apply llogimage_inv in H. destruct H as (_ & ->).
+      apply EInv_set_ln; cbn [l_log l_dlog l_acks];
+        [exact HE|apply (e_log s HE)|apply (e_dlog s HE)|apply (e_acks s HE)].
+    - (* log fsync *)
+      apply llogfsync_inv in H. destruct H as (img & rest & _ & _ & Hg & ->).
+      apply EInv_set_ln; cbn [l_log l_dlog l_acks];
+        [exact HE|apply (e_log s HE)|exact Hg|apply (e_acks s HE)].
+  Qed.
+
+  Theorem lreachable_EInv s : lreachable s -> EInv s.
+  Proof.
+    induction 1 as [|s l s' Hr IH Hstep]; [apply EInv_init|].
+    eapply EInv_step; try eassumption. apply (lreachable_LInv inc out inc_nonempty Hmulti); exact Hr.
+  Qed.
+End EInv.
